@@ -181,7 +181,7 @@ func runHitAndRun(s Scen) (res result) {
 	if ps := V.Panics(); len(ps) > 0 {
 		fail("c11-handler-panic", "the victim recovered a panic in an RPC handler: %s", ps[0])
 	}
-	if k, d := netsim.Audit("c11", t, V.CM); k != "" {
+	if k, d := netsim.AuditNode("c11", t, v0, V); k != "" {
 		fail(k, "%s (hit-and-run)", d)
 	}
 	if k, d := netsim.AuditTips("c11", t, v0, V.Tips()); k != "" {
